@@ -90,7 +90,12 @@ pub fn specs(thorough: bool) -> Vec<BuildSpec> {
         }
     }
     // (2c) paths that are related to each other: one a suffix / prefix of the other, same base name in different directories
-    let related: [&[&str]; 8] = [
+    let related: [&[&str]; 12] = [
+        // hidden (dot-prefixed) names next to their plain twins, at the top level and below
+        &["/.config/settings", "/config/settings"],
+        &["/.hidden", "/hidden", "/d/.hidden", "/d/hidden"],
+        &["/..data/x", "/.data/x", "/data/x"],
+        &["/etc/.a./f", "/etc/a/f", "/etc/a./f"],
         &["/opt/vendor/usr/bin/tool", "/usr/bin/tool"],
         &["/a/b/f", "/b/f", "/f"],
         &["/usr/bin/tool", "/usr/bin/tool.d/tool"],
@@ -118,6 +123,19 @@ pub fn specs(thorough: bool) -> Vec<BuildSpec> {
                     .collect();
                 v.push(mk(files, c, large));
             }
+        }
+    }
+    // (2d) sources that are not plain files: kernel-backed (stat size 0) and reached through a symbolic link
+    for c in [Comp::None, Comp::Gzip(6), Comp::Default] {
+        for large in [false, true] {
+            let mut files = vec![FileSpec::new("/s/a-first", Content::Bytes(b"first".to_vec())), FileSpec::new("/s/linked", Content::Linked(Box::new(Content::Noise(4097))))];
+            if std::path::Path::new(KERNEL_SOURCE).exists() {
+                let mut k = FileSpec::new("/s/kernel", Content::Kernel);
+                k.mode = ModeSpec::Inherit(0o444);
+                files.push(k);
+            }
+            files.push(FileSpec::new("/s/z-last", Content::Bytes(b"last".to_vec())));
+            v.push(mk(files, c, large));
         }
     }
     // (3) two and three files, every ordered size tuple over a small set
@@ -304,7 +322,7 @@ pub fn run(ctx: &Ctx) -> i32 {
         "built",
         "A",
         &format!(
-            "{} packages built by the library: 0–3 files; sizes {:?}{} (every residue mod 4) × compressible / incompressible content; name lengths 1–5, 255, 4000; every compression type {} × standard and stripped (large-file, forced by the verif hook) layout; all ordered size tuples over {{0,1,3,4,5,4096}} for 2 and 3 files given out of path order; file sets whose paths are suffixes / prefixes of one another; zstd levels 20–22. Oracle: files() yields exactly the given files in path order, bytes identical, length = recorded size, SHA-256 = recorded digest. non-trivial = package with ≥ 1 file",
+            "{} packages built by the library: 0–3 files; sizes {:?}{} (every residue mod 4) × compressible / incompressible content; name lengths 1–5, 255, 4000; every compression type {} × standard and stripped (large-file, forced by the verif hook) layout; all ordered size tuples over {{0,1,3,4,5,4096}} for 2 and 3 files given out of path order; file sets whose paths are suffixes / prefixes / case variants / dot-prefixed twins of one another; sources that are kernel-backed files (stat size 0) or symbolic links; zstd levels 20–22. Oracle: files() yields exactly the given files in path order, bytes identical, length = recorded size, SHA-256 = recorded digest. non-trivial = package with ≥ 1 file",
             specs.len(), SIZES, if ctx.thorough() { ", 1 MiB, 5 MiB" } else { "" }, if ctx.thorough() { "and every documented level (gzip 0–9, xz 0–9, zstd 1–22)" } else { "at three levels each" }
         ),
         a,
